@@ -542,6 +542,19 @@ func tthEncCases(c *Ctx) []json.RawMessage {
 		tok := litS("token")
 		add(TTHCase{Mode: "enc", Seq: i, ACL: &tok, Str: []StrKV{{K: litS(k), V: litS("w")}}})
 	}
+	// near-doubles of the dictionary keys (NUL / space / 0xff before or after, a doubled first byte): keys of their own,
+	// alone and side by side with the key they resemble
+	for i, k := range dictKeys() {
+		if len(k) > 12 && i%3 != 0 {
+			continue
+		}
+		for j, nk := range []string{"\x00" + k, "\x00\x00" + k, k + "\x00", " " + k, k + " ", "\xff" + k, k[:1] + k} {
+			add(TTHCase{Mode: "enc", Seq: i, Str: []StrKV{{K: litS(nk), V: litS("v")}}})
+			if j < 3 {
+				add(TTHCase{Mode: "enc", Seq: i, Str: []StrKV{{K: litS(k), V: litS("real")}, {K: litS(nk), V: litS("near")}}})
+			}
+		}
+	}
 	// every padding residue: one int value of length 0..7, with/without ACL / str entries
 	for n := 0; n < 8; n++ {
 		add(TTHCase{Mode: "enc", Seq: n, Int: []IntKV{{K: 1, V: StrSpec{Len: n, Seed: 3}}}})
